@@ -54,6 +54,7 @@ type Tape struct {
 	NetArg   int64            `json:"net_arg,omitempty"`
 	Defects  []world.Defect   `json:"defects,omitempty"`
 	Subkey   bool             `json:"subkey,omitempty"`
+	S2KAll   bool             `json:"s2k_all,omitempty"` // the KDC sends s2kparams for every etype
 }
 
 type eng struct{}
@@ -109,6 +110,7 @@ func enumerate(tier string) []Tape {
 			for _, n := range clientNets[1:] {
 				out = append(out, Tape{Scenario: "client", Cred: cred, Etype: et, Preauth: true, Net: n.k, NetArg: n.a})
 			}
+			out = append(out, Tape{Scenario: "client", Cred: cred, Etype: et, Preauth: true, S2KAll: true}, Tape{Scenario: "client", Cred: cred, Etype: et, Preauth: false, S2KAll: true})
 		}
 		for di, d := range serviceDefects {
 			t := Tape{Scenario: "service", Etype: et, Subkey: di%2 == 0}
@@ -338,7 +340,7 @@ func runClient(tp *Tape, m *monitor) {
 		tp.Etype = 18
 	}
 	gk.Seed(tp.RunSeed)
-	pol := refkdc.Policy{RequirePreauth: tp.Preauth, Hints: []string{"etype-info2", "pw-salt"}, HintsInASRep: true, CopyAddresses: true}
+	pol := refkdc.Policy{RequirePreauth: tp.Preauth, Hints: []string{"etype-info2", "pw-salt"}, HintsInASRep: true, CopyAddresses: true, S2KParamsForAll: tp.S2KAll}
 	kdc := refkdc.New("SIM.TEST", tp.RunSeed, pol)
 	kdc.AddService("HTTP/host.sim.test")
 	if tp.Cred == "password" {
@@ -553,6 +555,23 @@ func runService(tp *Tape, m *monitor) {
 				}
 				if b, e := ap.Ticket.Marshal(); e == nil {
 					m.scan("wire-encoding", "Ticket.Marshal after decryption", b)
+				}
+				if raw, e := messages.MarshalTicketSequence([]messages.Ticket{ap.Ticket}); e == nil {
+					m.scan("wire-encoding", "MarshalTicketSequence of the decrypted ticket", raw.Bytes)
+				}
+				body := messages.KDCReqBody{KDCOptions: types.NewKrbFlags(), Realm: "SIM.TEST", SName: ap.Ticket.SName, Till: time.Now().UTC(), Nonce: 7, EType: []int32{18},
+					AdditionalTickets: []messages.Ticket{ap.Ticket}}
+				if b, e := body.Marshal(); e == nil {
+					m.scan("wire-encoding", "KDCReqBody.Marshal with the decrypted ticket as additional ticket", b)
+				}
+				treq := messages.TGSReq{KDCReqFields: messages.KDCReqFields{PVNO: 5, MsgType: 12, ReqBody: body}}
+				if b, e := treq.Marshal(); e == nil {
+					m.scan("wire-encoding", "TGSReq.Marshal with the decrypted ticket as additional ticket", b)
+				}
+				if b, e := ap.Authenticator.Marshal(); e == nil {
+					// the decrypted authenticator re-encoded in clear is a carrier of its own subkey by
+					// definition (that is its content); it is scanned for the other secrets only
+					_ = b
 				}
 				if b, e := ap.EncryptedAuthenticator.Marshal(); e == nil {
 					m.scan("wire-encoding", "EncryptedData.Marshal of the authenticator", b)
